@@ -106,16 +106,98 @@ class ReadStream(Stream):
                 "print(m.get_output({c15.Pin(c15.pname(k)): complex(*v) for k,v in d['u']}, power=d['power']))\n")
 
 
+# ---------------------------------------------------------------------------------------------
+# dB and phase: real-analytic, tied by interval arithmetic (one generated lemma per sample)
+import c09  # noqa: E402
+
+
+class LogPhaseStream(c09.PhysicsStream):
+    """get_data's dB and Phase columns and get_PH against 10*log10(T) and arg(A): for the exact input amplitude
+    A = a + i b (dyadic rationals) and the observed floats d, theta the generated lemma states
+    |10 ln(a^2+b^2)/ln 10 - d| <= 1e-9, |r cos theta - a| <= 1e-9, |r sin theta - b| <= 1e-9, -pi <= theta <= pi
+    and is proved by the `interval` tactic"""
+    name = "db_phase"
+    shard_size = 15
+    header = ("From Coq Require Import Reals.\nFrom Interval Require Import Tactic.\n"
+              "From Lekkersim Require Import Polar.\nOpen Scope R_scope.\n")
+
+    def generate(self, rng, tier):
+        out = []
+        for _ in range(60 if tier == "quick" else 1500):
+            n = rng.randint(1, 3)
+            ns = rng.randint(1, 3)
+            S = []
+            for _k in range(ns):
+                M = [[[0.0, 0.0] for _ in range(n)] for _ in range(n)]
+                for i in range(n):
+                    for j in range(n):
+                        z = rand_dyadic(rng, 16, 16)
+                        if rng.random() < 0.25:       # axis-aligned amplitudes: phase 0, pi, +-pi/2
+                            z = rng.choice([complex(z.real, 0.0), complex(0.0, z.imag), complex(-abs(z.real), 0.0)])
+                        M[i][j] = [z.real, z.imag]
+                S.append(M)
+            idx = list(range(n))
+            rng.shuffle(idx)
+            out.append({"n": n, "S": S, "idx": idx, "p": rng.randrange(n), "q": rng.randrange(n),
+                        "by_pin": rng.random() < 0.5})
+        return out
+
+    def observe(self, d):
+        n = d["n"]
+        pin_dic = {Pin(pname(k)): d["idx"][k] for k in range(n)}
+        S = np.zeros((len(d["S"]), n, n), complex)
+        for k, M in enumerate(d["S"]):
+            for i in range(n):
+                for j in range(n):
+                    S[k, d["idx"][i], d["idx"][j]] = complex(*M[i][j])
+        mod = lk.model.SolvedModel(pin_dic=pin_dic, param_dic={"wl": np.arange(len(d["S"])) + 1.0}, Smatrix=S)
+        P, Q = (Pin(pname(d["p"])), Pin(pname(d["q"]))) if d["by_pin"] else (pname(d["p"]), pname(d["q"]))
+        with np.errstate(divide="ignore"):
+            tab = mod.get_data(P, Q)
+            ph0 = float(mod.get_PH(P, Q))
+        return [float(x) for x in tab["dB"]], [float(x) for x in tab["Phase"]], ph0
+
+    def make_lemma(self, name, d):
+        rlit = c09.rlit
+        dbs, phs, ph0 = self.observe(d)
+        if ph0 != phs[0]:
+            raise ValueError("get_PH differs from the Phase column at point 0")
+        goals = []
+        for k, M in enumerate(d["S"]):
+            a, b = M[d["p"]][d["q"]]
+            if a == 0.0 and b == 0.0:
+                if dbs[k] != float("-inf"):
+                    raise ValueError("dB of a zero amplitude is not -inf")
+                continue
+            r2 = "(%s * %s + %s * %s)" % (rlit(a), rlit(a), rlit(b), rlit(b))
+            goals.append("Rabs (10 * ln %s / ln 10 - %s) <= 1e-9" % (r2, rlit(dbs[k])))
+            goals.append("Rabs (sqrt %s * cos %s - %s) <= 1e-9" % (r2, rlit(phs[k]), rlit(a)))
+            goals.append("Rabs (sqrt %s * sin %s - %s) <= 1e-9" % (r2, rlit(phs[k]), rlit(b)))
+            goals.append("- PI - 1e-12 <= %s <= PI + 1e-12" % rlit(phs[k]))
+        if not goals:
+            goals = ["0 <= 1"]
+        return ("Lemma %s :\n  %s.\nProof. repeat split; interval with (i_prec 70). Qed.\n"
+                % (name, " /\\\n  ".join("(" + g + ")" for g in goals)))
+
+    def classify(self, d):
+        return "n%d/s%d" % (d["n"], len(d["S"]))
+
+    def py_repro(self, d):
+        return ("import sys; sys.path.insert(0,'/verif/harness'); import c15\n"
+                f"d={d!r}\nprint(c15.LogPhaseStream().observe(d))\n")
+
+
 TRUSTED = [
     "Coq 8.16.1 kernel + vm_compute", "Bignums/Uint63 primitives for the executed instance BQCf",
     "hand-written model Readout.v tied to /repo by this correspondence run (sampled)",
     "pandas DataFrame construction/column access exercised, not verified",
+    "dB / phase: Coq.Reals axioms and the Interval tactic (one generated lemma per sample), spec in Polar.v / props/C15.v",
 ]
 
 if __name__ == "__main__":
-    main("C15", [ReadStream()],
+    main("C15", [ReadStream(), LogPhaseStream()],
          level_text="props/C15.v; the tie builds random SolvedModels directly (size 1-4, sweep 1-4, non-symmetric matrices, "
                     "scrambled pin index maps), excites random pin subsets with complex amplitudes addressed by name and by Pin "
                     "object, and compares get_output, every row of get_full_output, get_data (T, Amplitude), get_A, get_T with "
                     "the model in amplitude and power mode; by-name and by-Pin results must be identical.",
-         trusted_base=TRUSTED, assumptions=["dB and phase columns are checked in the interval-arithmetic stream"])
+         trusted_base=TRUSTED, assumptions=["dB = -inf for a zero amplitude is accepted as the extended-real value of 10 log10 0"])
